@@ -263,6 +263,7 @@ func runOne(x *core.Ctx, seed uint64, realClock bool) {
 			return false
 		}
 	}
+	var resumeErrs []string // guarded by emu where mkSched runs concurrently
 	mkSched := func(rr *core.Rng, id scheduler.ID) (scheduler.Schedulable, string, time.Duration, error) {
 		ci := rr.Intn(len(crons))
 		off := time.Duration(rr.Range(-3, 10)) * time.Second
@@ -280,13 +281,35 @@ func runOne(x *core.Ctx, seed uint64, realClock bool) {
 		}
 		desc := fmt.Sprintf("id=%d cron=%q offset=%v last=%s", id, crons[ci], off, last.Format("15:04:05"))
 		if rr.Bool() {
-			t := &taskmodel.Task{ID: platform.ID(id), Offset: off, CreatedAt: last, LatestCompleted: last}
+			// the resume point of a stored task is the later of its last-scheduled and
+			// last-completed checkpoints (occurrences handed out but not yet completed are not
+			// handed out again)
+			t := &taskmodel.Task{ID: platform.ID(id), Offset: off, CreatedAt: last.Add(-time.Hour), LatestCompleted: last}
+			switch rr.Intn(4) {
+			case 0:
+				t.CreatedAt = last
+			case 1:
+				t.LatestScheduled = last
+				t.LatestCompleted = last.Add(-time.Duration(rr.Range(1, 8)) * cronPeriod[ci])
+			case 2:
+				t.LatestScheduled = last.Add(-time.Duration(rr.Range(1, 8)) * cronPeriod[ci])
+			}
+			desc += fmt.Sprintf(" latestScheduled=%s latestCompleted=%s", t.LatestScheduled.Format("15:04:05"), t.LatestCompleted.Format("15:04:05"))
 			if strings.HasPrefix(crons[ci], "@every ") {
 				t.Every = strings.TrimPrefix(crons[ci], "@every ")
 			} else {
 				t.Cron = crons[ci]
 			}
 			st, err := coordinator.NewSchedulableTask(t)
+			if err == nil {
+				// the schedulable must resume after the later checkpoint (as scheduler.NewSchedule
+				// normalises it), independently of what the scheduler later does with it
+				if _, want, e2 := scheduler.NewSchedule(crons[ci], last); e2 == nil && !st.LastScheduled().Equal(want) {
+					emu.Lock()
+					resumeErrs = append(resumeErrs, fmt.Sprintf("task %s: NewSchedulableTask resumes after %s, the later of its checkpoints gives %s", desc, st.LastScheduled().Format("15:04:05.000"), want.Format("15:04:05.000")))
+					emu.Unlock()
+				}
+			}
 			return st, desc + " (coordinator)", cronPeriod[ci], err
 		}
 		sc, l2, err := scheduler.NewSchedule(crons[ci], last)
@@ -509,6 +532,11 @@ func runOne(x *core.Ctx, seed uint64, realClock bool) {
 	fail := func(kind, key, format string, a ...interface{}) {
 		x.Violatef(kind, key, name, format+"\ntrace: %s", append(a, strings.Join(trace, " ; "))...)
 	}
+	emu.Lock()
+	for _, e := range resumeErrs {
+		fail("scheduler-resume-point", "a stored task does not resume after the later of its last-scheduled / last-completed checkpoints", "%s", e)
+	}
+	emu.Unlock()
 	for _, o := range overlap {
 		fail("scheduler-concurrent-execution", "two executions of one task at once", "%s", o)
 	}
